@@ -63,6 +63,7 @@ pub fn emulate(isa: Isa, text: &str, args: &[i64], cfg: &EmuConfig) -> Result<Em
 /// Which sanitizer events belong to which property.
 pub fn owns(prop: &str, kind: &ViolationKind, msg: &str) -> bool {
     let from_call = msg.contains("clobbered by an external call");
+    // (x86.rs: "value clobbered by an external call")
     match prop {
         "C06" | "C07" | "C08" => matches!(kind, ViolationKind::WildJump | ViolationKind::Unencodable) || (*kind == ViolationKind::Poison && !from_call),
         "C09" => matches!(kind, ViolationKind::Heap | ViolationKind::OutOfBounds),
